@@ -39,7 +39,7 @@ static void world_setup(void)
     ngd = 0; nrec = 0; npev = 0; nled = 0; ncobl = 0; ncwk = 0; seqno = 0;
     char nm[40];
     for (int k = 0; k < NR; k++) { RES[k] = cmb_resource_create(); snprintf(nm, sizeof nm, "res%d", k); cmb_resource_initialize(RES[k], nm); sh_res_holder[k] = -1; add_guard(&RES[k]->guard, GT_RES, k); add_rec(RC_RES, k); }
-    for (int k = 0; k < NPL; k++) { POOL[k] = cmb_resourcepool_create(); POOLCAP[k] = 1 + vr_below(&G, 8); snprintf(nm, sizeof nm, "pool%d", k); cmb_resourcepool_initialize(POOL[k], nm, POOLCAP[k]); add_guard(&POOL[k]->guard, GT_POOL, k); add_rec(RC_POOL, k); for (int q = 0; q < MAXP; q++) { sh_pool[k][q] = 0; last_lib_pool[k][q] = 0; } ppre_pid[k] = -1; }
+    for (int k = 0; k < NPL; k++) { POOL[k] = cmb_resourcepool_create(); POOLCAP[k] = 1 + vr_below(&G, 8); if (vr_chance(&G, 1, 8)) { static const uint64_t huge[] = { UINT64_MAX, ((uint64_t)1 << 63) + 5, UINT64_MAX - 1 }; POOLCAP[k] = huge[vr_below(&G, 3)]; VR_CNT("pools_with_capacity_above_2_63"); } snprintf(nm, sizeof nm, "pool%d", k); cmb_resourcepool_initialize(POOL[k], nm, POOLCAP[k]); add_guard(&POOL[k]->guard, GT_POOL, k); add_rec(RC_POOL, k); for (int q = 0; q < MAXP; q++) { sh_pool[k][q] = 0; last_lib_pool[k][q] = 0; } ppre_pid[k] = -1; }
     for (int k = 0; k < NB; k++) { BUF[k] = cmb_buffer_create(); BUFCAP[k] = bufcaps[vr_below(&G, 5)]; snprintf(nm, sizeof nm, "buf%d", k); cmb_buffer_initialize(BUF[k], nm, BUFCAP[k]); buf_last[k] = cmb_buffer_level(BUF[k]); buf_init[k] = buf_last[k]; buf_put_total[k] = buf_got_total[k] = 0; add_guard(&BUF[k]->front_guard, GT_BUFFRONT, k); add_guard(&BUF[k]->rear_guard, GT_BUFREAR, k); add_rec(RC_BUF, k); }
     for (int k = 0; k < NOQ; k++) { OQ[k] = cmb_objectqueue_create(); OQCAP[k] = qcaps[vr_below(&G, 4)]; snprintf(nm, sizeof nm, "oq%d", k); cmb_objectqueue_initialize(OQ[k], nm, OQCAP[k]); oqn[k] = 0; add_guard(&OQ[k]->front_guard, GT_OQFRONT, k); add_guard(&OQ[k]->rear_guard, GT_OQREAR, k); add_rec(RC_OQ, k); }
     for (int k = 0; k < NPQ; k++) { PQ[k] = cmb_priorityqueue_create(); PQCAP[k] = qcaps[vr_below(&G, 4)]; snprintf(nm, sizeof nm, "pq%d", k); cmb_priorityqueue_initialize(PQ[k], nm, PQCAP[k]); pqn[k] = 0; pq_ndead[k] = 0; add_guard(&PQ[k]->front_guard, GT_PQFRONT, k); add_guard(&PQ[k]->rear_guard, GT_PQREAR, k); add_rec(RC_PQ, k); }
@@ -83,6 +83,13 @@ static void world_teardown(void)
             VR_CNT("reports_printed"); }
         fclose(nul);
     }
+    /* objects are re-usable: terminate + initialize again must give an empty object of the new size (C11, C12, C07, C05) */
+    for (int k = 0; k < NB; k++) { uint64_t nc = 1 + vr_below(&G, 5); cmb_buffer_terminate(BUF[k]); cmb_buffer_initialize(BUF[k], "again", nc);
+        if (cmb_buffer_level(BUF[k]) != 0 || cmb_buffer_space(BUF[k]) != nc) VIOL("C11/level-after-reinitialize", "buffer %d re-initialised with capacity %" PRIu64 ": level %" PRIu64 ", space %" PRIu64, k, nc, cmb_buffer_level(BUF[k]), cmb_buffer_space(BUF[k])); VR_CNT("reinitialised_objects"); }
+    for (int k = 0; k < NPL; k++) { uint64_t nc = 1 + vr_below(&G, 5); cmb_resourcepool_terminate(POOL[k]); cmb_resourcepool_initialize(POOL[k], "again", nc);
+        if (cmb_resourcepool_in_use(POOL[k]) != 0 || cmb_resourcepool_available(POOL[k]) != nc) VIOL("C07/in-use-after-reinitialize", "pool %d re-initialised: in_use %" PRIu64, k, cmb_resourcepool_in_use(POOL[k])); VR_CNT("reinitialised_objects"); }
+    for (int k = 0; k < NR; k++) { cmb_resource_terminate(RES[k]); cmb_resource_initialize(RES[k], "again"); if (cmb_resource_in_use(RES[k]) != 0) VIOL("C05/in-use-after-reinitialize", "resource %d re-initialised but in use", k); VR_CNT("reinitialised_objects"); }
+    for (int k = 0; k < NPQ; k++) { cmb_priorityqueue_terminate(PQ[k]); cmb_priorityqueue_initialize(PQ[k], "again", 3); if (cmb_priorityqueue_length(PQ[k]) != 0 || cmb_priorityqueue_space(PQ[k]) != 3) VIOL("C12/length-after-reinitialize", "priorityqueue %d re-initialised: length %" PRIu64, k, cmb_priorityqueue_length(PQ[k])); VR_CNT("reinitialised_objects"); }
     for (int k = 0; k < NP; k++) { cmb_process_terminate(procs[k].pp); cmb_process_destroy(procs[k].pp); }
     for (int k = 0; k < NCV; k++) cmb_condition_destroy(CV[k]);
     for (int k = 0; k < NR; k++) cmb_resource_destroy(RES[k]);
